@@ -311,12 +311,40 @@ pub fn run(tier: Tier) -> i32 {
     let mut min_slack: BTreeMap<String, i64> = BTreeMap::new();
     let mut max_calls: BTreeMap<String, usize> = BTreeMap::new();
     let all: Vec<(String, Vec<(String, Graph)>, ExploreCfg, bool)> = plans.into_iter().map(|(a, b, c)| (a, b, c, false)).chain(pr_only.into_iter().map(|(a, b, c)| (a, b, c, true))).collect();
-    for (name, graphs, cfg, pr) in all {
-        let acc = graphs
-            .par_iter()
-            .with_max_len(1)
-            .map(|(n, g)| if pr { check_graph_sems(n, g, &cfg, &[Sem::PR]) } else { check_graph(n, g, &cfg) })
-            .reduce(Acc::default, Acc::merge);
+    // one pool of (plan, graph) tasks, largest graphs first: the few expensive members of S would
+    // otherwise each keep one core busy at the end of their own plan
+    let sems_of = |pr: bool| -> Vec<Sem> { if pr { vec![Sem::PR] } else { crate::refmodel::ALL_SEMS.to_vec() } };
+    let mut tasks: Vec<(usize, usize, Sem)> = all.iter().enumerate().flat_map(|(pi, (_, gs, _, pr))| { let ss = sems_of(*pr); (0..gs.len()).flat_map(move |gi| ss.clone().into_iter().map(move |s| (pi, gi, s))) }).collect();
+    tasks.sort_by_key(|&(pi, gi, _)| {
+        let g = &all[pi].1[gi].1;
+        std::cmp::Reverse((g.n, all[pi].2.dev_bound.unwrap_or(9), g.att.len()))
+    });
+    let t0 = std::time::Instant::now();
+    let mut per_plan: Vec<Acc> = tasks
+        .par_iter()
+        .with_max_len(1)
+        .map(|&(pi, gi, sem)| {
+            let (_, gs, cfg, _pr) = &all[pi];
+            let (n, g) = &gs[gi];
+            let acc = check_graph_sems(n, g, cfg, &[sem]);
+            let mut v: Vec<Option<Acc>> = (0..all.len()).map(|_| None).collect();
+            v[pi] = Some(acc);
+            v
+        })
+        .reduce(
+            || (0..all.len()).map(|_| None).collect::<Vec<Option<Acc>>>(),
+            |a, b| a.into_iter().zip(b.into_iter()).map(|(x, y)| match (x, y) {
+                (Some(x), Some(y)) => Some(x.merge(y)),
+                (x, None) => x,
+                (None, y) => y,
+            }).collect(),
+        )
+        .into_iter()
+        .map(|o| o.unwrap_or_default())
+        .collect();
+    eprintln!("  static plans: {:.1}s", t0.elapsed().as_secs_f64());
+    for (pi, (name, graphs, _cfg, _pr)) in all.iter().enumerate() {
+        let acc = std::mem::take(&mut per_plan[pi]);
         rep.states += acc.stats.nodes;
         rep.transitions += acc.stats.edges;
         rep.traces += acc.stats.execs;
